@@ -46,7 +46,7 @@ def run(ctx, report):
         'struct format keyed by the checked size. D2: the interval tests of check_imm_size are extracted and compared with the width semantics (signed n '
         'bits: [-2^(n-1), 2^(n-1)); unsigned n bits: upper bound exactly 2^n, lower bound 0, -2^(n-1) or -2^n), the returned cast has the width and '
         'signedness of the size token, and struct formats of x86_afs.dict_size / get_im_fmt have the right width and signedness.')
-    report.not_decided = 'that the emitted opcode/ModRM/SIB bytes denote the requested operands (fd_afs reverse table is built at run time); candidate completeness.'
+    report.not_decided = 'that forge_opc/asm_candidates select the right table row and operand order for a concrete line; candidate completeness; the 16-bit addressing forms (not in the reverse table).'
 
     R1 = report.rule('C02.D1', 'no unguarded narrowing of operand values in the assembly closure', floor=12)
     closure = [('x86_mn.asm_candidates', arch.method('x86_mn', 'asm_candidates')), ('x86_mn.asm_all_candidate', arch.method('x86_mn', 'asm_all_candidate')),
@@ -220,6 +220,55 @@ def run(ctx, report):
     R4 = report.rule('C02.D4', 'grammar actions accumulate register coefficients when they merge two parsed operands', floor=2)
     accumulate_rule(R4, att, pa)
 
+    R5 = report.rule('C02.D5', 'the reverse ModRM table maps every operand shape to ModRM/SIB bytes that decode to that shape', floor=1000)
+    T = X.modrm_tables()
+    fd = T['fd_afs']
+    loc_pre = where(arch, arch.method('x86allmncs', 'init_pre_modrm'))
+
+    def strip(d):
+        return tuple(sorted(((k, v) for k, v in d.items() if k != 'txt'), key=str))
+    tables = {'general': T['db_afs'], 'mm': T['db_afs_mm'], 'xmm': T['db_afs_xmm']}
+    n_ent = 0
+    for key, lst in fd.items():
+        kd = dict(key)
+        want = strip(kd)
+        for index, j in lst:
+            n_ent += 1
+            inst = 'fd_afs[%s] -> %02X%s' % (','.join('%s=%s' % kv for kv in want), index, '' if j is None else ' %02X' % j)
+            if index & 0x38:
+                R5.violation(inst, 'fd_afs:regfield:%s' % ('mm/xmm' if any(isinstance(k, int) and k >= 0x100 for k in kd) or any(isinstance(k, int) and k >= 8 for k in kd) else 'general'),
+                             'the reverse table offers ModRM byte %02X, whose reg field is not zero, for the operand %s: forge_opc ORs it over the reg field of the other operand, '
+                             'so the candidate encodes a different register' % (index, dict(want)), loc_pre, witness="asm('movq mm1, mm2') contains 0f 6f da (movq mm3, mm2)")
+                continue
+            hits = []
+            for tn, tab in tables.items():
+                ent = tab[index]
+                if isinstance(ent, list):
+                    if j is not None:
+                        hits.append(strip(ent[j]))
+                elif j is None:
+                    hits.append(strip(ent))
+            if want in hits:
+                R5.ok(inst, sample='%s decodes back to the operand' % inst, nontrivial=(n_ent % 16 == 0))
+            else:
+                R5.violation(inst, 'fd_afs:mismatch:%02X:%s' % (index, j), 'the reverse table maps the operand %s to ModRM %02X%s, which decodes to %s' % (
+                    dict(want), index, '' if j is None else ' SIB %02X' % j, hits), loc_pre)
+    # completeness: every decodable shape (reg field 0) is reachable
+    for tn, tab in tables.items():
+        for index in range(0x100):
+            if index & 0x38:
+                continue
+            ents = [(None, tab[index])] if not isinstance(tab[index], list) else list(enumerate(tab[index]))
+            for j, ent in ents:
+                k1 = tuple(sorted(ent.items(), key=str))
+                k2 = strip(ent)
+                if any((index, j) in fd.get(k, []) for k in (k1, k2)):
+                    R5.ok('complete:%s:%02X:%s' % (tn, index, j), nontrivial=False)
+                else:
+                    R5.violation('complete:%s:%02X:%s' % (tn, index, j), 'fd_afs:incomplete:%s:%02X' % (tn, index), 'ModRM %02X%s of the %s table is not listed in the reverse table: '
+                                 'the operand it denotes cannot be assembled' % (index, '' if j is None else ' SIB %02X' % j, tn), loc_pre)
+    report.analysed['fd_afs_entries'] = n_ent
+
     R2 = report.rule('C02.D2', 'range table of check_imm_size and struct formats are the width semantics', floor=10)
     cis = arch.func('check_imm_size')
     env = dict((k, v) for k, v in E.items())
@@ -384,6 +433,8 @@ MUTANTS = [
     ('fixed-dib-no16', 'miasmx/arch/ia32_arch.py', "                        if dib == u32:\n                            dib = u16\n", "                        if dib == u32:\n                            dib = u32\n", 'C02.D3'),
     ('deref3-overwrite', 'miasmx/arch/ia32_att.py', "    t[0][reg] = t[6] + t[0].get(reg, 0)", "    t[0][reg] = t[6]", 'C02.D4'),
     ('deref2-overwrite', 'miasmx/arch/ia32_att.py', "    t[0][reg] = 1 + t[0].get(reg, 0)", "    t[0][reg] = 1", 'C02.D4'),
+    ('fd-afs-mm-all-bytes', 'miasmx/arch/ia32_arch.py', "            # the reverse table only lists bytes with an empty reg field\n            if i == i&0xC7:\n                self.fd_afs[ad].append((i, None))", "            self.fd_afs[ad].append((i, None))", 'C02.D5'),
+    ('fd-afs-wrong-index', 'miasmx/arch/ia32_arch.py', "                if not (index, None)  in self.fd_afs[ad]:\n                    self.fd_afs[ad].insert(0, (index, None) )\n        for i in range(0x100):", "                if not (index, None)  in self.fd_afs[ad]:\n                    self.fd_afs[ad].insert(0, (index^1, None) )\n        for i in range(0x100):", 'C02.D5'),
     ('forge-nocheck', 'miasmx/arch/ia32_arch.py', "                v = check_imm_size(a.get(x86_afs.imm, 0), ad[x86_afs.imm])\n                if v is None:\n                    log.debug(\"cannot encode this val in size forge!\")\n                    return None, None\n",
      "                v = tab_size2int[ad[x86_afs.imm]](a.get(x86_afs.imm, 0))\n", 'C02.D1'),
 ]
